@@ -14,6 +14,9 @@ Proof. reflexivity. Qed.
 Lemma flags_lset a k v : flags (fst (b_lset abs a k v)) = flags a.
 Proof. unfold flags. simpl. destruct (a_dw a) eqn:E; simpl; rewrite ?E; reflexivity. Qed.
 
+Lemma flags_llist a p : flags (fst (b_llist abs a p)) = flags a.
+Proof. unfold flags. simpl. destruct (a_dr a) eqn:E; simpl; rewrite ?E; reflexivity. Qed.
+
 Lemma flags_sops : forall ops a, flags (fst (fst (run_sops abs a ops))) = flags a.
 Proof.
   induction ops as [|o tl IH]; intro a; [reflexivity|].
@@ -24,7 +27,8 @@ Proof.
   - specialize (IH a). destruct (run_sops abs a tl) as [[s1 tr] r]. simpl in *. exact IH.
   - cbn [b_sget abs]. specialize (IH a). destruct (run_sops abs a tl) as [[s1 tr] r]. simpl in *. exact IH.
   - cbn [b_lget abs]. specialize (IH a). destruct (run_sops abs a tl) as [[s1 tr] r]. simpl in *. exact IH.
-  - cbn [b_llist abs]. specialize (IH a). destruct (run_sops abs a tl) as [[s1 tr] r]. simpl in *. exact IH.
+  - pose proof (flags_llist a p) as F. destruct (b_llist abs a p) as [s0 o]. simpl in F.
+    specialize (IH s0). destruct (run_sops abs s0 tl) as [[s1 tr] r]. simpl in *. congruence.
   - pose proof (flags_lset a k v) as F. destruct (b_lset abs a k v) as [s0 ok]. simpl in F.
     destruct ok; [rewrite IH; exact F|exact F].
   - reflexivity.
@@ -42,7 +46,8 @@ Proof.
     destruct ok; [rewrite IH; exact F|exact F].
   - specialize (IH a). destruct (run_lops abs a tl) as [[s1 tr] r]. simpl in *. exact IH.
   - cbn [b_lget abs]. specialize (IH a). destruct (run_lops abs a tl) as [[s1 tr] r]. simpl in *. exact IH.
-  - cbn [b_llist abs]. specialize (IH a). destruct (run_lops abs a tl) as [[s1 tr] r]. simpl in *. exact IH.
+  - pose proof (flags_llist a p) as F. destruct (b_llist abs a p) as [s0 o]. simpl in F.
+    specialize (IH s0). destruct (run_lops abs s0 tl) as [[s1 tr] r]. simpl in *. congruence.
   - reflexivity.
 Qed.
 
@@ -151,30 +156,41 @@ Proof. reflexivity. Qed.
 
 Lemma tx_one_fail t fl a :
   exists a', exec_tx_one abs a fl (fail_of t) = (a', [], add_errlog fl, false) /\
-             flags a' = after_exec (same_time (t_body t)) (flags a).
+             flags a' = after_exec (same_time (t_body t)) (flags a) /\ a_dirty a' = a_dirty a.
 Proof.
-  eexists. split.
+  eexists. split; [|split].
   - unfold exec_tx_one, exec_body, fail_of. cbn. reflexivity.
   - destruct t as [f fee [d ex lo|to amt]]; cbn; unfold after_exec, flags; cbn;
       try destruct (d =? 0)%N; reflexivity.
+  - reflexivity.
+Qed.
+
+Lemma dirty_sset_all : forall kvs a, a_dirty (sset_all abs a kvs) = a_dirty a.
+Proof.
+  unfold sset_all. induction kvs as [|e tl IH]; intro a; simpl; [reflexivity|]. rewrite IH. reflexivity.
 Qed.
 
 Lemma tx_one_noop_ok t fl a :
-  snd (exec_tx_one abs a fl (noop_of t)) = true /\ snd (fst (fst (exec_tx_one abs a fl (noop_of t)))) = [].
+  snd (exec_tx_one abs a fl (noop_of t)) = true /\ snd (fst (fst (exec_tx_one abs a fl (noop_of t)))) = [] /\
+  a_dirty (fst (fst (fst (exec_tx_one abs a fl (noop_of t))))) = a_dirty a.
 Proof.
   destruct t as [f fee [d ex lo|to amt]]; unfold exec_tx_one, exec_body, noop_of; cbn.
-  - destruct (d =? 0)%N; cbn; split; reflexivity.
-  - split; reflexivity.
+  - destruct (d =? 0)%N; cbn; (split; [reflexivity|split; [reflexivity|]]);
+      match goal with |- a_dirty (fold_left ?f ?l ?x) = _ => change (a_dirty (sset_all abs x l) = a_dirty a) end;
+      rewrite dirty_sset_all; reflexivity.
+  - split; [reflexivity|split; [reflexivity|]].
+    match goal with |- a_dirty (fold_left ?f ?l ?x) = _ => change (a_dirty (sset_all abs x l) = a_dirty a) end.
+    rewrite dirty_sset_all. reflexivity.
 Qed.
 
 Lemma tx_one_noop t fl a :
   exists a' rc, exec_tx_one abs a fl (noop_of t) = (a', [], rc, true) /\
-                flags a' = after_exec (same_time (t_body t)) (flags a).
+                flags a' = after_exec (same_time (t_body t)) (flags a) /\ a_dirty a' = a_dirty a.
 Proof.
-  destruct (tx_one_noop_ok t fl a) as [H1 H2].
+  destruct (tx_one_noop_ok t fl a) as (H1 & H2 & H3).
   pose proof (flags_tx_one (noop_of t) fl a) as F. rewrite same_time_noop in F.
   destruct (exec_tx_one abs a fl (noop_of t)) as [[[a' tr] rc] ok]. simpl in *. subst.
-  exists a', rc. split; [reflexivity|exact F].
+  exists a', rc. split; [reflexivity|split; [exact F|exact H3]].
 Qed.
 
 (** * items *)
@@ -218,11 +234,14 @@ Qed.
 
 Definition res3 {A B C} (x : A * B * C * bool) : A * B * C := fst x.
 
+Lemma rb_ok_clean a' a : a_dirty a' = a_dirty (b_begin abs a) -> b_rb_ok abs a' = true.
+Proof. simpl. intro H. rewrite H. reflexivity. Qed.
+
 (** a single transaction and its replacement *)
 Lemma single_replace a t :
   let '(a1, tr, rc, _) := exec_tx abs a t in
-  res3 (exec_item abs a (replace_item (ISingle t) [rc])) =
-  (a1, [if (rc_ty rc =? ExecPack)%N then [] else tr], [rc]).
+  exec_item abs a (replace_item (ISingle t) [rc]) =
+  (a1, [if (rc_ty rc =? ExecPack)%N then [] else tr], [rc], true).
 Proof.
   unfold exec_tx.
   pose proof (fee_receipt a t) as FR.
@@ -241,9 +260,9 @@ Proof.
     assert (RI : replace_item (ISingle t) [add_errlog fl] = ISingle (fail_of t)).
     { unfold replace_item. change (rc_ty (add_errlog fl)) with (rc_ty fl). rewrite Hty. reflexivity. }
     rewrite RI. unfold exec_item, exec_tx. rewrite fee_fail, EF.
-    destruct (tx_one_fail t fl (b_begin abs s1)) as (a' & E2 & F2). rewrite E2.
+    destruct (tx_one_fail t fl (b_begin abs s1)) as (a' & E2 & F2 & D2). rewrite E2.
     change (rc_ty (add_errlog fl)) with (rc_ty fl). rewrite Hty.
-    unfold res3. simpl. f_equal. f_equal.
+    rewrite (rb_ok_clean _ _ D2). cbn [N.eqb ExecPack Pos.eqb]. f_equal. f_equal. f_equal.
     symmetry. apply (rollback_flags _ _ _ (eq_trans FL (eq_sym F2)) (saved_after _ _ _ FL)).
 Qed.
 
@@ -258,24 +277,24 @@ Lemma rest_replace : forall ts a b, flags a = flags b ->
   let '(a', trs, rcs, ok) := exec_rest abs a ts in
   ok = false ->
   exists b', exec_rest abs b (replace_members ts rcs) = (b', map (fun _ => []) ts, rcs, false) /\
-             flags a' = flags b'.
+             flags a' = flags b' /\ a_dirty b' = a_dirty b.
 Proof.
   induction ts as [|t tl IH]; intros a b Hf; simpl; [discriminate|].
   pose proof (tx_one_failed t pack_empty a) as TF.
   pose proof (flags_tx_one t pack_empty a) as FL.
   destruct (exec_tx_one abs a pack_empty t) as [[[a1 tr] rc] ok1] eqn:E1. simpl in TF, FL.
   destruct ok1.
-  - destruct (tx_one_noop t pack_empty b) as (b1 & rcn & E2 & F2).
+  - destruct (tx_one_noop t pack_empty b) as (b1 & rcn & E2 & F2 & D2).
     assert (Hf1 : flags a1 = flags b1) by congruence.
     specialize (IH a1 b1 Hf1).
     destruct (exec_rest abs a1 tl) as [[[a2 trs] rcs'] ok2] eqn:E3.
-    intro Hok. subst ok2. destruct (IH eq_refl) as (b2 & E4 & F4).
+    intro Hok. subst ok2. destruct (IH eq_refl) as (b2 & E4 & F4 & D4).
     exists b2. change (has_errlog pack_empty) with false. cbn iota. cbn [exec_rest]. rewrite E2, E4.
-    split; [reflexivity|exact F4].
+    split; [reflexivity|split; [exact F4|congruence]].
   - intros _. specialize (TF eq_refl). subst rc.
-    destruct (tx_one_fail t pack_empty b) as (b1 & E2 & F2).
+    destruct (tx_one_fail t pack_empty b) as (b1 & E2 & F2 & D2).
     exists b1. rewrite has_errlog_add. rewrite replace_all_pack. cbn [exec_rest]. rewrite E2.
-    rewrite !map_const_map. split; [reflexivity|congruence].
+    rewrite !map_const_map. split; [reflexivity|split; [congruence|exact D2]].
 Qed.
 
 Lemma rest_lengths : forall ts a,
@@ -327,12 +346,12 @@ Qed.
 
 Lemma group_replace a ts :
   let '(a1, trs, rcs, _) := exec_group abs a ts in
-  res3 (exec_item abs a (replace_item (IGroup ts) rcs)) = (a1, erase_failed rcs trs, rcs).
+  exec_item abs a (replace_item (IGroup ts) rcs) = (a1, erase_failed rcs trs, rcs, true).
 Proof.
   unfold exec_group. destruct ts as [|t0 rest]; [reflexivity|].
   pose proof (fee_receipt a t0) as FR.
   destruct (exec_fee abs a t0) as [s1 [fl|]] eqn:EF.
-  2:{ simpl. rewrite EF. unfold res3. simpl. f_equal. f_equal. f_equal.
+  2:{ simpl. rewrite EF. f_equal. f_equal. f_equal. f_equal.
       clear. induction rest; simpl; [reflexivity|]. f_equal. exact IHrest. }
   destruct (FR fl eq_refl) as [Hty Hne]. clear FR.
   pose proof (tx_one_failed t0 fl (b_begin abs s1)) as TF.
@@ -348,17 +367,18 @@ Proof.
     + (* the group succeeded: nothing is replaced *)
       assert (RI : replace_item (IGroup (t0 :: rest)) (rc0 :: rcs) = IGroup (t0 :: rest))
         by (unfold replace_item; rewrite TO; reflexivity).
-      rewrite RI. unfold exec_item, exec_group. rewrite EF, E1, E2. unfold res3. cbn [fst].
+      rewrite RI. unfold exec_item, exec_group. rewrite EF, E1, E2.
       rewrite erase_ok; [reflexivity|]. constructor; [exact TO|exact RT].
     + (* a later member failed *)
       assert (RI : replace_item (IGroup (t0 :: rest)) (fl :: rcs) =
                    IGroup (noop_of t0 :: replace_members rest rcs)).
       { unfold replace_item. rewrite Hty. cbn [replace_members]. rewrite Hne. reflexivity. }
       rewrite RI. unfold exec_item, exec_group. rewrite fee_noop, EF.
-      destruct (tx_one_noop t0 fl (b_begin abs s1)) as (b1 & rcn & E3 & F3). rewrite E3.
+      destruct (tx_one_noop t0 fl (b_begin abs s1)) as (b1 & rcn & E3 & F3 & D3). rewrite E3.
       assert (Hf : flags s3 = flags b1) by exact (eq_trans FL (eq_sym F3)).
-      destruct (RR b1 Hf eq_refl) as (b' & E4 & F4). rewrite E4.
-      unfold res3. cbn [fst]. f_equal. f_equal.
+      destruct (RR b1 Hf eq_refl) as (b' & E4 & F4 & D4). rewrite E4.
+      rewrite (rb_ok_clean b' s1) by congruence.
+      f_equal. f_equal. f_equal.
       * pose proof (rest_saved rest s3) as RS. rewrite E2 in RS. simpl in RS.
         rewrite (saved_after _ _ _ FL) in RS.
         symmetry. apply (rollback_flags _ _ _ F4 RS).
@@ -373,8 +393,9 @@ Proof.
     { unfold replace_item. change (rc_ty (add_errlog fl)) with (rc_ty fl). rewrite Hty.
       cbn [replace_members]. rewrite has_errlog_add, replace_all_pack. reflexivity. }
     rewrite RI. unfold exec_item, exec_group. rewrite fee_fail, EF.
-    destruct (tx_one_fail t0 fl (b_begin abs s1)) as (a' & E2 & F2). rewrite E2.
-    unfold res3. cbn [fst]. rewrite !map_const_map. f_equal. f_equal.
+    destruct (tx_one_fail t0 fl (b_begin abs s1)) as (a' & E2 & F2 & D2). rewrite E2.
+    rewrite (rb_ok_clean _ _ D2).
+    rewrite !map_const_map. f_equal. f_equal. f_equal.
     + symmetry. apply (rollback_flags _ _ _ (eq_trans FL (eq_sym F2)) (saved_after _ _ _ FL)).
     + rewrite erase_pack.
       * simpl. rewrite map_map. reflexivity.
@@ -400,7 +421,7 @@ Qed.
 
 Lemma item_replace a it :
   let '(a1, trs, rcs, _) := exec_item abs a it in
-  res3 (exec_item abs a (replace_item it rcs)) = (a1, erase_failed rcs trs, rcs) /\
+  exec_item abs a (replace_item it rcs) = (a1, erase_failed rcs trs, rcs, true) /\
   length trs = length rcs.
 Proof.
   destruct it as [t|ts].
@@ -421,7 +442,7 @@ Qed.
     final state, nor the receipts, nor the reads of the transactions that were kept *)
 Theorem spec_replace_block : forall blk a,
   let '(a1, trs, rcs, _) := exec_block abs a blk in
-  res3 (exec_block abs a (replace_failed a blk)) = (a1, erase_failed rcs trs, rcs).
+  exec_block abs a (replace_failed a blk) = (a1, erase_failed rcs trs, rcs, true).
 Proof.
   induction blk as [|it tl IH]; intro a; [reflexivity|].
   cbn [exec_block replace_failed].
@@ -430,12 +451,7 @@ Proof.
   destruct HI as [HI HL].
   specialize (IH a1).
   destruct (exec_block abs a1 tl) as [[[a2 trs2] rcs2] g2].
-  cbn [exec_block].
-  destruct (exec_item abs a (replace_item it rcs1)) as [[[b1 u1] q1] h1]. unfold res3 in HI. simpl in HI.
-  inversion HI; subst.
-  destruct (exec_block abs a1 (replace_failed a1 tl)) as [[[b2 u2] q2] h2]. unfold res3 in IH. simpl in IH.
-  inversion IH; subst.
-  unfold res3. simpl. rewrite erase_app by exact HL. reflexivity.
+  cbn [exec_block]. rewrite HI, IH. simpl. rewrite erase_app by exact HL. reflexivity.
 Qed.
 
 (** the state after a failed transaction is the state after paying its fee *)
